@@ -89,6 +89,23 @@ pub fn c19q_step_any_counter() {
 	kani::cover!(r.is_err(), "reach: failed read");
 }
 
+/// shared byte buffers decoded through the counting wrapper: prefix and payload both count
+#[cfg(feature = "ext")]
+#[kani::proof]
+#[kani::unwind(8)]
+pub fn c19q_bytes_through_counted() {
+	let bytes: [u8; 4] = kani::any();
+	let len: usize = kani::any();
+	kani::assume(len <= 4);
+	let mut s = Pre::count(2, &bytes[..len]);
+	let mut c = CountedInput::new(&mut s);
+	let r = <(bytes::Bytes, u8)>::decode(&mut c);
+	let cnt = c.count();
+	assert!(cnt == (s.pp + len - s.rest.len()) as u64, "count differs from the bytes the wrapped input delivered (Bytes)");
+	assert!(r.is_ok() == (len >= 3));
+	core::mem::forget(r);
+}
+
 /// negative twin: "count equals the input length" must FAIL
 #[kani::proof]
 #[kani::unwind(6)]
